@@ -235,7 +235,136 @@ func load(root string) error {
 		}
 		pkgs[d] = p
 	}
+	// types of package-level variables initialised by a call, and which *rand.Rand variables
+	// draw from a mutex-protected source
+	for _, d := range pkgDirs {
+		p := pkgs[d]
+		for _, v := range p.vars {
+			for i, nm := range v.spec.Names {
+				if nm.Name != v.name || i >= len(v.spec.Values) {
+					continue
+				}
+				call, ok := v.spec.Values[i].(*ast.CallExpr)
+				if !ok {
+					continue
+				}
+				if isRandNew(call, v.file) {
+					if v.t == nil {
+						v.t = randType(call, v.file, p)
+					}
+					if lockedSourceArg(call, p, v.file) {
+						lockedGlobal[p.name+"."+v.name] = true
+					}
+					continue
+				}
+				if fd, fp := calledFunc(call, p, v.file); fd != nil {
+					if v.t == nil {
+						v.t = funcResult(fd, fp, 0)
+					}
+					// func F() *rand.Rand { return rand.New(&lockedSource{...}) }
+					ast.Inspect(fd.Body, func(n ast.Node) bool {
+						if rs, ok := n.(*ast.ReturnStmt); ok && len(rs.Results) == 1 {
+							if c2, ok := rs.Results[0].(*ast.CallExpr); ok && isRandNew(c2, fp.fileOf[fd]) && lockedSourceArg(c2, fp, fp.fileOf[fd]) {
+								lockedGlobal[p.name+"."+v.name] = true
+							}
+						}
+						return true
+					})
+				}
+			}
+		}
+	}
 	return nil
+}
+
+// lockedGlobal: package-level *rand.Rand variables whose source is a struct of a scanned package
+// with a sync.Mutex field (db.lockedSource): rand.New(&lockedSource{...}) directly or through a
+// constructor function that returns exactly that.  Their methods are goroutine-safe.
+var lockedGlobal = map[string]bool{}
+
+func isRandNew(call *ast.CallExpr, f *ast.File) bool {
+	sel, ok := call.Fun.(*ast.SelectorExpr)
+	if !ok || sel.Sel.Name != "New" || len(call.Args) != 1 {
+		return false
+	}
+	id, ok := sel.X.(*ast.Ident)
+	return ok && importPathOf(f, id.Name) == "math/rand"
+}
+
+func randType(call *ast.CallExpr, f *ast.File, p *pkgInfo) *typ {
+	sel := call.Fun.(*ast.SelectorExpr)
+	return &typ{&ast.StarExpr{X: &ast.SelectorExpr{X: sel.X, Sel: ast.NewIdent("Rand")}}, p, f}
+}
+
+func lockedSourceArg(call *ast.CallExpr, p *pkgInfo, f *ast.File) bool {
+	arg := call.Args[0]
+	if u, ok := arg.(*ast.UnaryExpr); ok && u.Op == token.AND {
+		arg = u.X
+	}
+	cl, ok := arg.(*ast.CompositeLit)
+	if !ok {
+		return false
+	}
+	si, _, _ := resolveNamed(&typ{cl.Type, p, f})
+	if si == nil {
+		return false
+	}
+	for i := range si.fields {
+		if _, _, sk := resolveNamed(&typ{si.fields[i].typ, si.pkg, si.file}); sk == "Mutex" || sk == "RWMutex" {
+			return true
+		}
+	}
+	return false
+}
+
+// calledFunc resolves F(...) or alias.F(...) to a function of a scanned package
+func calledFunc(call *ast.CallExpr, p *pkgInfo, f *ast.File) (*ast.FuncDecl, *pkgInfo) {
+	switch x := call.Fun.(type) {
+	case *ast.Ident:
+		if fd := p.funcs[x.Name]; fd != nil {
+			return fd, p
+		}
+	case *ast.SelectorExpr:
+		if id, ok := x.X.(*ast.Ident); ok {
+			ip := importPathOf(f, id.Name)
+			if strings.HasPrefix(ip, modPath+"/") {
+				if q, ok := pkgs[strings.TrimPrefix(ip, modPath+"/")]; ok {
+					if fd := q.funcs[x.Sel.Name]; fd != nil {
+						return fd, q
+					}
+				}
+			}
+		}
+	}
+	return nil, nil
+}
+
+// mutatingType: types whose methods change the receiver without synchronisation
+func mutatingType(t *typ) bool {
+	if t == nil {
+		return false
+	}
+	e := t.expr
+	for {
+		if s, ok := e.(*ast.StarExpr); ok {
+			e = s.X
+			continue
+		}
+		break
+	}
+	sel, ok := e.(*ast.SelectorExpr)
+	if !ok {
+		return false
+	}
+	id, ok := sel.X.(*ast.Ident)
+	if !ok || t.file == nil {
+		return false
+	}
+	switch importPathOf(t.file, id.Name) + "." + sel.Sel.Name {
+	case "math/rand.Rand", "bytes.Buffer", "strings.Builder":
+		return true
+	}
+	return false
 }
 
 // staticTypeOf: type of a package-level initialiser, as far as it can be read off the syntax
@@ -1117,6 +1246,10 @@ func (c *funcCtx) visitCall(x *ast.CallExpr) {
 		if l := c.locOf(sel); l != nil {
 			// call of a function-typed field
 			c.visitExpr(sel, mRead)
+		} else if lx := c.locOf(sel.X); lx != nil && lx.global && mutatingType(lx.t) && !lockedGlobal[lx.owner+"."+lx.path] {
+			// a method call on a package-level variable whose methods mutate the receiver
+			// (math/rand.Rand, bytes.Buffer, strings.Builder) is a WRITE of that variable
+			c.visitExpr(sel.X, mWrite)
 		} else {
 			c.visitExpr(sel.X, mRead)
 		}
